@@ -6,6 +6,7 @@ CONSTANTS
   Reader = {1}
   WatchPerSegment = TRUE
   SwapInstallsOld = TRUE
+  ResetOnRoll = FALSE
   NoRoom <- Always
   HasRoom <- Always
 INVARIANTS TypeOK AckedDurable AckedPublished PublishedFindable
